@@ -55,6 +55,8 @@ func main() {
 		runC13(*out, *seed, *tier)
 	case "C02":
 		runC02(*out, *seed, *tier)
+	case "C08":
+		runC08(*out, *seed, *tier)
 	case "C10":
 		runC10(*out, *seed, *tier)
 	case "C04":
